@@ -13,6 +13,8 @@ proof fn popcount_dec(x: usize) {
     if x != 0 { assert((x >> 1usize) < x) by(bit_vector) requires x != 0; }
 }
 pub assume_specification [usize::count_ones] (x: usize) -> (r: u32) ensures r == popcount(x);
+/// a power of two has exactly one bit set (A-LIB)
+pub assume_specification [usize::is_power_of_two] (x: usize) -> (r: bool) ensures r == (popcount(x) == 1);
 proof fn lemma_shr_dec(x: usize)
     requires x != 0
     ensures (x >> 1usize) < x
@@ -72,4 +74,8 @@ pub broadcast proof fn ax_pop_clear(x: usize, k: usize)
         assert(((x ^ (1usize << k)) >> 1usize) == ((x >> 1usize) ^ (1usize << m))) by(bit_vector) requires 1 <= k < 64, m == k - 1;
     }
 }
-pub broadcast group popcount_axioms { ax_pop_zero, ax_pop_full, ax_pop_clear }
+/// the bitwise operations on subset ids are commutative (proved): `bit ^ id` for `id ^ bit` must not alarm
+pub broadcast proof fn lemma_xor_comm(a: usize, b: usize) ensures #[trigger] (a ^ b) == (b ^ a) { assert((a ^ b) == (b ^ a)) by(bit_vector); }
+pub broadcast proof fn lemma_and_comm(a: usize, b: usize) ensures #[trigger] (a & b) == (b & a) { assert((a & b) == (b & a)) by(bit_vector); }
+pub broadcast proof fn lemma_or_comm(a: usize, b: usize) ensures #[trigger] (a | b) == (b | a) { assert((a | b) == (b | a)) by(bit_vector); }
+pub broadcast group popcount_axioms { ax_pop_zero, ax_pop_full, ax_pop_clear, lemma_xor_comm, lemma_and_comm, lemma_or_comm }
